@@ -13,7 +13,10 @@ HEADER = """From Coq Require Import ZArith List Bool PrimFloat.
 From OQ Require Import Lib.PyFloat Model.TimeGrid Model.Glue.
 Import ListNotations. Open Scope Z_scope."""
 
-DT_LITS = ["0.1", "0.05", "0.01", "0.2", "0.25", "0.3", "0.07", "0.13", "0.5", "0.99", "1.0", "0.002", "0.125"]
+# time steps as a user types them, and time steps that come out of a computation (1/3, 1/15, 0.1+0.2, pi/10, 2/7: all 16-17
+# significant digits are part of the value)
+DT_COMPUTED = [repr(1 / 3), repr(1 / 15), repr(0.1 + 0.2), repr(3.141592653589793 / 10), repr(2 / 7)]
+DT_LITS = ["0.1", "0.05", "0.01", "0.2", "0.25", "0.3", "0.07", "0.13", "0.5", "0.99", "1.0", "0.002", "0.125"] + DT_COMPUTED
 START_LITS = ["0.0", "0.3", "-0.3", "1.0", "2.5", "-7.1", "100.3"]
 
 _corr = oqupy.PowerLawSD(alpha=0.0, zeta=1, cutoff=1.0, cutoff_type="exponential")
@@ -110,7 +113,9 @@ def run(chk):
                 if x_ < m_:
                     adv.append((m_ - x_, (m_ - x_) / m_, dts_, sts_, m_))
     hard = sorted(adv, reverse=True)[:3] + sorted(adv, key=lambda a_: -a_[1])[:3] + rng.sample(adv, min(len(adv), 9 if thorough else 6))
-    plan = [(a_[2], a_[3], a_[4]) for a_ in hard] + [None] * n_a
+    # every run: computed time steps (full mantissa), one per driver
+    full = [(rng.choice(DT_COMPUTED), rng.choice(START_LITS), rng.choice([3, 7, 12])) for _ in range(3)]
+    plan = [(a_[2], a_[3], a_[4]) for a_ in hard] + full + [None] * n_a
     chk.count("adversarial_grid_points_available", len(adv))
     for i, forced in enumerate(plan):
         dts, sts = rng.choice(DT_LITS), rng.choice(START_LITS)
